@@ -854,3 +854,110 @@ Theorem move_cwd_root : m_cwd m' = m_cwd m ∧ m_root m' = m_root m ∧ r = inl 
 Proof. destruct (move_op_spec env m s d sb sd db dd m' r HW Ev Hm) as (se & op & x & _ & _ & _ & _ & Hr & _ & _ & Hc & Hrt & _). done. Qed.
 
 End MoveLaws.
+
+(* ---- C12: move_p terminates within its fuel (2 * entries + 2), for every well-formed state ---- *)
+Lemma size_filter_le {A} (P : rpath * A → Prop) `{!∀ x, Decision (P x)} (m : gmap rpath A) : size (filter P m) ≤ size m.
+Proof.
+  induction m as [|i x m Hi IH] using map_ind; [by rewrite map_filter_empty|].
+  rewrite map_filter_insert. rewrite (map_size_insert_None i x m Hi). case_decide.
+  - rewrite map_size_insert_None; [lia|]. apply map_filter_lookup_None. by left.
+  - rewrite delete_notin by done. lia.
+Qed.
+
+Section Fuel.
+Variables (sr dt : rpath).
+Hypothesis Hsr_dt : ¬ sr `suffix_of` dt.
+Hypothesis Hdt_sr : ¬ dt `suffix_of` sr.
+
+Definition under_sr (kv : rpath * entry) : Prop := sr `suffix_of` kv.1.
+Global Instance under_sr_dec kv : Decision (under_sr kv).
+Proof. unfold under_sr. apply _. Defined.
+Definition cnt (m : mfs) : nat := size (filter under_sr (m_ents m)).
+
+Lemma cnt_moved m w e : sr `suffix_of` w → m_ents m !! w = Some e → cnt (moved sr dt m w e) = pred (cnt m).
+Proof.
+  intros Hw He. unfold cnt. rewrite moved_ents.
+  rewrite map_filter_insert_not by (intros y Hy; unfold under_sr in Hy; cbn in Hy; apply (not_both sr dt Hsr_dt Hdt_sr (rb sr dt w)); [done | by apply rb_under]).
+  rewrite map_filter_delete. apply map_size_delete_Some. exists e. apply map_filter_lookup_Some. done.
+Qed.
+
+Lemma move_loop_step f m w rest e : Inv sr m (w :: rest) → m_ents m !! w = Some e →
+  move_loop (S f) m sr dt (w :: rest) = move_loop f (moved sr dt m w e) sr dt (map (λ n, n :: w) (kids_of e) ++ rest).
+Proof.
+  intros I He. cbn [move_loop]. rewrite He.
+  assert (Hw : strictly_under sr w) by (apply (iv_under _ _ _ I); left).
+  pose proof (strictly_under_suffix sr w Hw) as Hws.
+  destruct Hw as (kw & Hkw & Ew). destruct kw as [|wb kw']; [done|]. cbn in Ew.
+  fold (move_entry e (rebase sr dt w)). fold (rb sr dt w).
+  change (match m_data (upd_ents m (λ es, <[rb sr dt w:=move_entry e (rb sr dt w)]> (delete w es))) !! w with
+          | Some d => upd_data (upd_ents m (λ es, <[rb sr dt w:=move_entry e (rb sr dt w)]> (delete w es))) (λ ds, <[rb sr dt w:=d]> (delete w ds))
+          | None => upd_ents m (λ es, <[rb sr dt w:=move_entry e (rb sr dt w)]> (delete w es))
+          end) with (moved sr dt m w e).
+  rewrite Ew at 1.
+  pose proof (iv_orphan _ _ _ I w ltac:(left)) as Ho. rewrite Ew in Ho. cbn [tail] in Ho.
+  assert (Hgp : m_ents (moved sr dt m w e) !! (kw' ++ sr) = None).
+  { rewrite moved_ents.
+    assert (kw' ++ sr ≠ rb sr dt w) by (intros E; apply (not_both sr dt Hsr_dt Hdt_sr (kw' ++ sr)); [by exists kw' | rewrite E; by apply rb_under]).
+    assert (kw' ++ sr ≠ w) by (rewrite Ew; intros E; apply (f_equal length) in E; cbn in E; lia).
+    rewrite lookup_insert_ne by done. by rewrite lookup_delete_ne. }
+  rewrite Hgp. reflexivity.
+Qed.
+
+Lemma loop_terminates fuel : ∀ m ws, Inv sr m ws → m_ents m !! sr = None → cnt m < fuel → move_loop fuel m sr dt ws ≠ OutOfFuel.
+Proof.
+  induction fuel as [|f IH]; intros m ws I Hsr Hc; [lia|].
+  destruct ws as [|w rest]; [done|].
+  destruct (iv_exists _ _ _ I w ltac:(left)) as [e He].
+  rewrite (move_loop_step f m w rest e I He).
+  assert (Hws : sr `suffix_of` w) by (apply strictly_under_suffix, (iv_under _ _ _ I); left).
+  apply IH.
+  - by apply inv_step.
+  - rewrite moved_ents.
+    assert (sr ≠ rb sr dt w) by (intros E; apply (not_both sr dt Hsr_dt Hdt_sr sr); [done | rewrite E; by apply rb_under]).
+    assert (sr ≠ w) by (intros <-; congruence).
+    rewrite lookup_insert_ne by done. by rewrite lookup_delete_ne.
+  - rewrite cnt_moved by done.
+    assert (1 ≤ cnt m); [|lia]. unfold cnt.
+    assert (Hin : filter under_sr (m_ents m) !! w = Some e) by (apply map_filter_lookup_Some; done).
+    destruct (size (filter under_sr (m_ents m))) eqn:Es; [|lia].
+    apply map_size_empty_inv in Es. rewrite Es in Hin. by rewrite lookup_empty in Hin.
+Qed.
+
+End Fuel.
+
+Theorem move_op_terminates env m s d : WF m → move_op env m s d ≠ OutOfFuel.
+Proof.
+  intros HW. unfold move_op. destruct (move_validate env m s d) as [e| |sp dt0] eqn:Ev; [done|done|].
+  destruct (move_go_facts env m s d _ _ Ev) as ([se Hse] & Hne & Hu & b & ddir & x & -> & Hx & Hxd & Hxl & Hy).
+  destruct sp as [|sb sd].
+  { exfalso. assert (is_under (b :: ddir) [] = true) as Ht by (apply is_under_spec, suffix_nil). congruence. }
+  assert (Hsr_dt : ¬ (sb :: sd) `suffix_of` (b :: ddir)).
+  { intros Hs. apply is_under_spec in Hs. congruence. }
+  assert (Hleaf : ∀ y, m_ents m !! (b :: ddir) = Some y → files_of y = ∅).
+  { intros y Hyy. rewrite Hyy in Hy. unfold files_of. apply Hy. }
+  pose proof (nothing_under m (b :: ddir) HW Hleaf) as Hfree.
+  assert (Hdt_sr : ¬ (b :: ddir) `suffix_of` (sb :: sd)).
+  { intros Hs. rewrite (Hfree _ Hs) in Hse; [done | congruence]. }
+  destruct (wf_par m HW _ _ _ Hse) as (op & Hop & _ & _).
+  assert (Hxr : real_dir x) by done.
+  change (match m_ents m !! (b :: ddir) with Some _ => upd_data m (delete (b :: ddir)) | None => m end) with (M0 m b ddir).
+  remember (2 * size (m_ents m) + 2) as fuel eqn:Hf. destruct fuel as [|f]; [lia|].
+  assert (Hfirst : move_loop (S f) (M0 m b ddir) (sb :: sd) (b :: ddir) [sb :: sd] =
+                   move_loop f (M1 m sb b sd ddir se op x) (sb :: sd) (b :: ddir) (map (λ n, n :: sb :: sd) (kids_of se) ++ []))
+    by (eapply move_loop_first; eauto).
+  rewrite Hfirst, app_nil_r.
+  assert (HM1s : m_ents (M1 m sb b sd ddir se op x) !! (sb :: sd) = None) by (eapply M1_sr; eauto).
+  apply loop_terminates; [done | done | eapply inv_M1; eauto | exact HM1s |].
+  (* the entries still under the source root in M1 are entries of m *)
+  assert (Hsub : filter (under_sr (sb :: sd)) (m_ents (M1 m sb b sd ddir se op x)) = delete (sb :: sd) (filter (under_sr (sb :: sd)) (m_ents m))).
+  { apply map_eq. intros k. apply option_eq. intros e.
+    rewrite map_filter_lookup_Some, lookup_delete_Some, map_filter_lookup_Some. unfold under_sr. cbn [fst]. split.
+    - intros [Hl Hk]. destruct (decide (k = sb :: sd)) as [->|Hn]; [congruence|].
+      assert (Hu2 : m_ents (M1 m sb b sd ddir se op x) !! k = m_ents m !! k) by (eapply M1_under; eauto).
+      rewrite Hu2 in Hl. done.
+    - intros (Hn & Hl & Hk). split; [|done].
+      assert (Hu2 : m_ents (M1 m sb b sd ddir se op x) !! k = m_ents m !! k) by (eapply M1_under; eauto). by rewrite Hu2. }
+  unfold cnt. rewrite Hsub. rewrite map_size_delete.
+  pose proof (size_filter_le (under_sr (sb :: sd)) (m_ents m)) as Hle.
+  destruct (filter _ (m_ents m) !! (sb :: sd)); cbn; lia.
+Qed.
